@@ -3,6 +3,7 @@ package memnet
 import (
 	"io"
 	"net"
+	"os"
 	"sync"
 	"sync/atomic"
 	"time"
@@ -21,6 +22,17 @@ type Stream struct {
 	Reads   atomic.Int64
 	Waiting atomic.Bool
 	OnWrite func(b []byte)
+	// a peer that stopped reading with its buffers full: Write parks until the stream is closed or the write deadline passes
+	stalled bool
+	wdl     time.Time
+	Parked  atomic.Int64 // writers currently parked
+}
+
+// Stall makes every Write from now on park like a write into the full buffers of a peer that does not read.
+func (s *Stream) Stall() {
+	s.mu.Lock()
+	s.stalled = true
+	s.mu.Unlock()
 }
 
 func NewStream() *Stream {
@@ -79,6 +91,20 @@ func (s *Stream) Idle() bool {
 
 func (s *Stream) Write(p []byte) (int, error) {
 	s.mu.Lock()
+	if s.stalled && !s.closed {
+		s.Parked.Add(1)
+		for !s.closed && (s.wdl.IsZero() || time.Now().Before(s.wdl)) {
+			if !s.wdl.IsZero() {
+				time.AfterFunc(time.Until(s.wdl)+time.Millisecond, s.cond.Broadcast)
+			}
+			s.cond.Wait()
+		}
+		s.Parked.Add(-1)
+		if !s.closed {
+			s.mu.Unlock()
+			return 0, os.ErrDeadlineExceeded
+		}
+	}
 	if s.closed {
 		s.mu.Unlock()
 		return 0, net.ErrClosed
@@ -121,8 +147,14 @@ type addr string
 func (a addr) Network() string { return "mem" }
 func (a addr) String() string  { return string(a) }
 
-func (s *Stream) LocalAddr() net.Addr              { return addr("local") }
-func (s *Stream) RemoteAddr() net.Addr             { return addr("remote") }
-func (s *Stream) SetDeadline(time.Time) error      { return nil }
-func (s *Stream) SetReadDeadline(time.Time) error  { return nil }
-func (s *Stream) SetWriteDeadline(time.Time) error { return nil }
+func (s *Stream) LocalAddr() net.Addr             { return addr("local") }
+func (s *Stream) RemoteAddr() net.Addr            { return addr("remote") }
+func (s *Stream) SetDeadline(time.Time) error     { return nil }
+func (s *Stream) SetReadDeadline(time.Time) error { return nil }
+func (s *Stream) SetWriteDeadline(t time.Time) error {
+	s.mu.Lock()
+	s.wdl = t
+	s.mu.Unlock()
+	s.cond.Broadcast()
+	return nil
+}
